@@ -284,6 +284,14 @@ def inventory(mod, table_name):
                 if isinstance(n, ast.Return) and isinstance(n.value, ast.Call) and isinstance(n.value.func, ast.Name) \
                         and any(n.value.func.id == h and y for h, _, y in helpers):
                     agen = True
+        sgen = has_yield(sfn)
+        if not sgen:
+            # returns the result of a module-level generator function?
+            for n in ast.walk(sfn):
+                if isinstance(n, ast.Return) and isinstance(n.value, ast.Call) and isinstance(n.value.func, ast.Name) \
+                        and n.value.func.id in funcs and isinstance(funcs[n.value.func.id][-1], ast.FunctionDef) \
+                        and has_yield(funcs[n.value.func.id][-1]):
+                    sgen = True
         ips = iter_param(d)
         if not ips and shape == ".erases":
             # through a helper: the parameter handed to the helper in the position the helper iterates
@@ -299,7 +307,7 @@ def inventory(mod, table_name):
         if len(ips) != 1:
             raise Untranslatable(f"{name}: iterated parameter not unique: {ips}")
         by_async[name] = s
-        pairs.append(dict(asyncFn=name, syncFn=s, shape=shape, asyncGen=agen, iterParam=ips[0], notes=notes,
+        pairs.append(dict(asyncFn=name, syncFn=s, shape=shape, asyncGen=agen, syncIsGen=sgen, iterParam=ips[0], notes=notes,
                           filters=[k for k, v in tab if v == name]))
     consumers = []
     for key, fname in tab:
@@ -324,9 +332,9 @@ def gen():
     def pair_rows(pairs):
         rows = []
         for p in pairs:
-            rows.append("  { asyncFn := %s, syncFn := %s, filters := %s, shape := %s, asyncGen := %s, iterParam := %s, notes := %s }" % (
+            rows.append("  { asyncFn := %s, syncFn := %s, filters := %s, shape := %s, asyncGen := %s, syncIsGen := %s, iterParam := %s, notes := %s }" % (
                 lstr(p["asyncFn"]), lstr(p["syncFn"]), llist(lstr(x) for x in p["filters"]), p["shape"], lbool(p["asyncGen"]),
-                lstr(p["iterParam"]), llist(lstr(x) for x in p["notes"])))
+                lbool(p["syncIsGen"]), lstr(p["iterParam"]), llist(lstr(x) for x in p["notes"])))
         return "[\n" + ",\n".join(rows) + "]" if rows else "[]"
 
     L.append("/-- read: every `@async_variant(sync_fn)` pair of filters.py with the shape of its async body -/")
